@@ -2,12 +2,18 @@ from check import Job
 from props.ctrl_snips import SN, R
 EXPLANATION = 'the control-plane handlers handle_stop / handle_store / handle_fetch (lifted from the current daemon/ControlServer.cpp into a class with a recording node and a recording send_response): with a control token configured, a request without the exact token gets an *_UNAUTHENTICATED error and has no effect - nothing is stored, registered, fetched, written or stopped'
 ASSUMPTIONS = ['the handlers, rate kernels, constants and helpers are lifted textually; ControlServer::Impl itself (sockets, accept thread), recv_line / parse_request and handle_client\'s dispatch are NOT encoded: requests are handed over as ParsedRequest',
-               'configured token "tok"; offered token absent, or 2 / 3 / 4 fully symbolic bytes different from it; Node calls, file writes, the stop callback and the response are recorded by the harness',
+               'configured token "tok"; offered token absent, or 2 / 3 / 4 / 259 (thorough also 515) fully symbolic bytes different from it; Node calls, file writes, the stop callback and the response are recorded by the harness',
                'std::filesystem::absolute / path splitting are stubs; logging is cut']
 def jobs(tier):
     out = []
     for cmd, name in ((0, 'stop'), (1, 'store'), (2, 'fetch-out'), (3, 'fetch-stream')):
-        for tf in (0, 1, 2, 3):
+        for tf in ((0, 1, 2, 3, 4) if tier == 'quick' else (0, 1, 2, 3, 4, 5)):
             out.append(Job('%s-token%d' % (name, tf), 'ctrl.cpp', 'h_c27_gate', [cmd, tf], reach=['refused'], snippets=SN, redirect=R, stream_sink=True, timeout=1500, bounds='%s, token form %d' % (name, tf)))
         out.append(Job('%s-exact-token' % name, 'ctrl.cpp', 'h_c27_open', [cmd], reach=['accepted'], snippets=SN, redirect=R, stream_sink=True, timeout=1500, bounds='%s with the exact token' % name))
+    # the same gate end to end: request bytes through the real recv_line / parse_request / handle_client dispatch of the whole unit
+    RW = {'^_ZNSt10filesystem7__cxx114path14_M_split_cmptsEv$': 'h_path_split_stub4', '?^_ZNSt10filesystem8absoluteERKNS_7__cxx114pathE$': 'h_fs_absolute4', '?^_ZNKSt10filesystem7__cxx114path11parent_pathEv$': 'h_fs_parent_empty4'}
+    for cmd, name in ((0, 'stop'), (1, 'store'), (2, 'fetch-out'), (3, 'fetch-stream')):
+        for tf in (0, 1, 2, 3, 4):
+            out.append(Job('wire-%s-token%d' % (name, tf), 'ctrl_full.cpp', 'h_c27_wire', [cmd, tf], reach=['refused'], redirect=RW, timeout=1500, bounds='%s as request bytes (symbolic letter case, header order), token form %d' % (name, tf)))
+        out.append(Job('wire-%s-exact-token' % name, 'ctrl_full.cpp', 'h_c27_wire_open', [cmd], reach=['accepted'], redirect=RW, timeout=1500, bounds='%s as request bytes with the exact token' % name))
     return out
